@@ -118,6 +118,11 @@ func propC13(c *Check) {
 		nSet += len(sets)
 		nRemove += len(removes)
 		isGenesis := strings.HasPrefix(key, "x/locking/module.")
+		for i, s := range removes {
+			if _, ok := recordOfPowerKey(s.Args[0]); !ok && !isGenesis {
+				c.Violated("R1", fmt.Sprintf("PowerRanking.Remove-key#%d @ %s", i, key), p.InstrPos(s.Call), "the removed ranking key is not Join(record.Power, address) of a validator record held here: "+r.E(s.Args[0])+" reason=not-established")
+			}
+		}
 		for i, s := range sets {
 			cons := fmt.Sprintf("PowerRanking.Set#%d @ %s", i, key)
 			a, ok := recordOfPowerKey(s.Args[0])
@@ -158,8 +163,23 @@ func propC13(c *Check) {
 				continue // fresh record
 			}
 			var rmCalls []ssa.Instruction
+			// a record and the record it was copied from (`next := current`) name the same validator: the entry removed
+			// under the (unchanged) power of one is the old entry of the other
+			sameRecord := func(x, y *ssa.Alloc) bool {
+				if x == y {
+					return true
+				}
+				for _, pr := range [][2]*ssa.Alloc{{x, y}, {y, x}} {
+					for _, w := range wholeStoresOf(pr[0]) {
+						if st, ok := w.(*ssa.Store); ok && structCopySource(st) == pr[1] {
+							return true
+						}
+					}
+				}
+				return false
+			}
 			for _, s := range removes {
-				if ra, ok := recordOfPowerKey(s.Args[0]); ok && ra == a {
+				if ra, ok := recordOfPowerKey(s.Args[0]); ok && sameRecord(ra, a) {
 					// the removed key must be the loaded power: no Power store reaches this load
 					if strings.Contains(r.E(s.Args[0]), "mix{") || !strings.Contains(r.E(s.Args[0]), ".Power, ") {
 						c.Violated("R1", "PowerRanking.Remove-key @ "+key, p.InstrPos(s.Call), "ranking entry removed with a power that may already have been changed: "+r.E(s.Args[0]))
@@ -182,8 +202,18 @@ func propC13(c *Check) {
 					c.Held(rule, what+" @ "+key, p.InstrPos(target), "record was not ranked when loaded ("+en.Str(ld)+"): no entry to remove")
 					return
 				}
+				// a path along which the record is known not to have been ranked when loaded (an arm of the switch over
+				// its status) owes no removal
+				unranked := map[edgeKey]bool{}
+				for _, b := range f.Blocks {
+					for i := range b.Succs {
+						if st, ok := vf.loaded.EdgeOut(b, i, a); ok && st != 0 && st&ranked == 0 {
+							unranked[edgeKey{b: b, i: i}] = true
+						}
+					}
+				}
 				for _, w := range ws {
-					ps := &PathSearch{Fn: f, From: w, AvoidInstr: instrSet(rmCalls), IsTarget: func(in ssa.Instruction) bool { return in == target }}
+					ps := &PathSearch{Fn: f, From: w, AvoidInstr: instrSet(rmCalls), AvoidEdges: unranked, IsTarget: func(in ssa.Instruction) bool { return in == target }}
 					if t, path := ps.Find(); t != nil {
 						c.Violated(rule, what+" @ "+key, p.InstrPos(target), "reachable for a record that may be ranked ("+en.Str(ld)+") without removing its old ranking entry first (stale (power, address) entry stays in the index)", p.describePath(path)...)
 						return
@@ -350,6 +380,29 @@ func propC13(c *Check) {
 	}
 	c.Floor("R1", "PowerRanking.Set sites", nSet, 2)
 	c.Floor("R1", "PowerRanking.Remove sites", nRemove, 2)
+	// completeness: every write of the ranking anywhere in production code is one of the sites examined above (a
+	// function that moves ranking entries without holding a validator record of its own is not covered by R1–R3)
+	{
+		examined := map[*ssa.Function]bool{}
+		for _, vf := range vfs {
+			examined[vf.fn] = true
+		}
+		stray := 0
+		for _, f := range p.ProdFuncs {
+			if p.isGenerated(f) || examined[f] {
+				continue
+			}
+			for _, s := range p.StoreSites(f) {
+				if s.Field.Name() == "PowerRanking" && (s.Method == "Set" || s.Method == "Remove") {
+					stray++
+					c.Violated("R1", "ranking-write-outside-record-functions PowerRanking."+s.Method+" @ "+FuncKey(f), p.InstrPos(s.Call), "the power ranking is written by a function that holds no validator record: the pairing of entry and record power cannot be established reason=not-established")
+				}
+			}
+		}
+		if stray == 0 {
+			c.Held("R1", "ranking-writes-all-examined", "", fmt.Sprintf("%d Set and %d Remove sites, all in functions that hold the record", nSet, nRemove))
+		}
+	}
 
 	// R4 EndBlocker
 	eb := p.MustFn("x/locking/keeper.Keeper.EndBlocker")
@@ -762,6 +815,43 @@ func propC14(c *Check) {
 			c.RequireFact(he, "R3", "expired-evidence-ignored", notOld+`|^\(Context\.ConsensusParams\(\)\.Evidence == nil\)$`, instrSet([]ssa.Instruction{gets[0]}), "loading the accused validator (then slashing and tombstoning it)")
 		}
 	}
+	// … and unexpired evidence always ends in the tombstone: from the load of the accused record, every way to a
+	// success exit either writes the Tombstoned status or goes over an edge on which the record is known to have been
+	// Tombstoned already when it was loaded (no other status, jailed included, is forgiven)
+	if len(gets) == 1 {
+		for _, vf := range vfs {
+			if vf.fn != he {
+				continue
+			}
+			var tomb []ssa.Instruction
+			for _, w := range vf.ts.Writes() {
+				if w.To == en.Set("Tombstoned") {
+					tomb = append(tomb, w.Store)
+				}
+			}
+			cons := "evidence-always-tombstones @ " + FuncKey(he)
+			if len(tomb) == 0 || len(vf.ts.Allocs) == 0 {
+				c.Violated("R3", cons, p.Pos(he.Pos()), "no write of the Tombstoned status to the accused record found reason=not-established")
+				break
+			}
+			already := map[edgeKey]bool{}
+			for _, a := range vf.ts.Allocs {
+				for _, b := range he.Blocks {
+					for i := range b.Succs {
+						if st, ok := vf.loaded.EdgeOut(b, i, a); ok && st != 0 && st&^en.Set("Tombstoned") == 0 {
+							already[edgeKey{b: b, i: i}] = true
+						}
+					}
+				}
+			}
+			ps := &PathSearch{Fn: he, From: gets[0], AvoidInstr: instrSet(tomb), AvoidEdges: already, IsTarget: successTargets(he)}
+			if t, path := ps.Find(); t != nil {
+				c.Violated("R3", cons, p.InstrPos(t), "unexpired evidence against a validator that is not tombstoned yet can be passed over without tombstoning it", p.describePath(path)...)
+			} else {
+				c.Held("R3", cons, p.InstrPos(tomb[0]), "every way from the record load to a success exit writes Tombstoned, or the record was Tombstoned when loaded")
+			}
+		}
+	}
 	// R4 lock on Tombstoned/Inactive
 	for _, vf := range vfs {
 		if FuncKey(vf.fn) != "x/locking/keeper.Keeper.lock" {
@@ -802,6 +892,8 @@ func propC15(c *Check) {
 	c.Rule("R1", "unlock: maturity = BlockTime + ExitingDuration when exiting (status Inactive/Tombstoned or remaining < token threshold), BlockTime + UnlockDuration otherwise; the exiting branch zeroes power, moves Active/Pending/Downgrade to Inactive, clears the locking index and never re-ranks")
 	c.Rule("R2", "DequeueMatureUnlocks: walks entries with time <= BlockTime, removes every visited key, appends every visited unlock once to the execution queue in walk order and stores the queue")
 	c.Rule("R3", "writers: UnlockQueue is written only by unlock (Set), DequeueMatureUnlocks (Remove) and genesis; locking Params have no runtime writer")
+	c.Rule("R5", "an exiting validator leaves the set at once: the end blocker reports every member of the last set that is not re-elected with power 0 and removes it from ValidatorSet, whatever its status (C13/R4)")
+	c.Depend("R5", "C13", propC13, map[string]bool{"R4": true}, "a member that is neither re-elected nor evicted keeps its seat and its old power")
 	un := p.MustFn("x/locking/keeper.Keeper.unlock")
 	c.touch(un)
 	r := p.R(un)
